@@ -35,6 +35,12 @@ def search(ctx, broken, corr_broken):
     return out
 
 
+def standing_search(ctx):
+    """the monitors (the property itself on real runs, no model) run on every check: they cost seconds, and a change that the LTS
+    happens to accept would otherwise go unexamined"""
+    return search(ctx, [], [])
+
+
 def replay(rp):
     if rp.get("kind") != "client-session" or not rp.get("scenario"):
         return False, "not an input replay: " + str(rp.get("what") or rp.get("broken_theorems") or rp.get("broken_correspondence"))[:500]
